@@ -277,7 +277,7 @@ theorem claim_step {s : Sys} (hP : s.db.PInv) (hS : s.Synced)
 theorem claimNameplate_conns_mbx (s : Sys) (app name side : String) (t : Time) (fresh : String) :
     (s.claimNameplate app name side t fresh).1.conns = s.conns := by
   have hC : ClosedG (fun s' : Sys => s'.conns = s.conns) :=
-    { emit := fun _ _ h => h
+    { emit := fun _ _ _ h => h
       modUdb := fun _ _ h => h
       commit := fun s' h => by rw [commit_conns]; exact h
       ucommit := fun s' h => by rw [ucommit_conns]; exact h
